@@ -250,6 +250,10 @@ class ModelCacheMixin:
 
         acceptable_models = [m for m in other._models if set(m.model.keys()) == self.variables]
         self._models.update(acceptable_models)
+        if len(acceptable_models) != len(other._models):
+            # an exhausted mark says that the cached models have every value of an expression: it must not be taken
+            # over without the models it speaks about
+            return
         self._eval_exhausted.update(other._eval_exhausted)
         self._max_exhausted.update(other._max_exhausted)
         self._min_exhausted.update(other._min_exhausted)
